@@ -101,8 +101,8 @@ CLAIMED = {
         note=NOTE + 'XmapEntryID is excluded from "the record" (it is a running number).', design='6 (C10)', technique='Coq proof (locality of every grouping step; erasure of the source counter) + end-to-end variant comparison'),
     'C11': dict(
         text='PARTIAL. coq/props/C11.v proves the deterministic half: positions_with_ids of the mirror image on the other strand = renumbered labels; pairing commutes with renumbering under the no-tie hypothesis (which holds on a lattice with 2d < step); scoring, factory, chain, conflict step, resolver, Aligner.align, Row.create (same reference span and confidence, start/end exchanged) and HitEnum commute with any injective renumbering; '
-             'C11_align_lattice quantifies over all lattice inputs and ANY seed peaks. Seeding in exact arithmetic: on the lattice getSequence(mirror q, -) = getSequence(q, +), hence the exact correlations (primary and refined, incl. normalisation and exceptions) coincide (C11_sequence_mirror, C11_seeding_mirror); off the lattice they differ (example). NOT provable here: FFT rounding and find_peaks/top-N selection on equal exact correlations — exercised by the end-to-end oracle on lattice data sets (separate mode), with the failing stage named if it ever differs.',
-        note=NOTE + 'Seeding numerics outside the model.', design='6 (C11), 10.4', technique='Coq proof (renumbering commutes with every stage) + pipeline correspondence on mirrored pairs + end-to-end mirror oracle'),
+             'C11_align_lattice quantifies over all lattice inputs and ANY seed peaks. Seeding in exact arithmetic: on the lattice getSequence(mirror q, -) = getSequence(q, +), hence the exact correlations (primary and refined, incl. normalisation and exceptions) coincide (C11_sequence_mirror, C11_seeding_mirror); off the lattice they differ (example). The full statement is REFUTED for the code as it is at exact ties (C11_first_pass_mirror_refuted, C11_tie_mechanism on the run model with the executable seeding stage; open known finding F14: two seeds of exactly equal score on opposite strands of one reference are ordered by enumeration, which mirroring exchanges). FFT rounding cannot break the symmetry (the arrays of mirror q are bit for bit those of q with the strands exchanged: measured on every molecule). End-to-end oracle on lattice data sets (separate mode) incl. e2e_mirror_ties (palindromic references/windows/molecules, mirrored reference pairs, inverted duplicates, periodic references; -p 1/2/3/6): exactly the F14 signature (independent tie analysis) is routed to KNOWN-FINDING, any other asymmetry is a violation with the failing stage named.',
+        note=NOTE + 'FFT rounding outside the model; open finding F14 (exact strand ties) is listed in known_findings.json and matched by a specific signature.', design='6 (C11), 10.2, F14_DESIGN.md', technique='Coq proof (renumbering commutes with every stage) + pipeline correspondence on mirrored pairs + end-to-end mirror oracle'),
     'C02': dict(
         text='Theorems in coq/props/C02.v over row_create / positions_with_ids (with label-number offset) / unaligned_fragments / trim / the writer model: RefStartPos/RefEndPos = coordinates of the first/last listed reference label; QryStartPos/QryEndPos = offsets of the outermost listed query labels '
              'from the first label on + and from the last label on - with the stated order; QryLen = last-first+1 of the query as read (also for fragments), RefLen = truncated end marker; ids of the input maps; XmapEntryID of the k-th line is k; Orientation +/-; second-pass label numbers are whole-query numbers on both strands (prefix and suffix fragments); whole record text = spec; C02_run_records lifts all of it to every non-joined row of every output file of the run model (Coordinator.program_run, any seeding function), with the pairs_from hypothesis DERIVED from the pipeline. '
